@@ -75,6 +75,9 @@ RetViol(e) ==
                       \cup Check(x.prop, "no-partial-result-on-error", ~Has(e, "value") /\ ~Has(e, "partial"))
                  ELSE IF x.outcome = "errclass"
                  THEN Check(x.prop, "error-of-specified-class", e.err /\ e.errClass = x.errclass)
+                 ELSE IF x.outcome = "oneofOrError"
+                 THEN Check(x.prop, "result-is-allowed-value-or-error",
+                            e.err \/ (Has(e, "value") /\ \E i \in 1..Len(x.values) : e.value = x.values[i]))
                  ELSE IF x.outcome = "float"
                  THEN Check(x.prop, "succeeds-where-specification-has-a-result", ~e.err)
                  ELSE {})
